@@ -111,7 +111,6 @@ func runIncrementalTiling(c *vkit.Collector, rng *vkit.Rng, k int) {
 	class := fmt.Sprintf("tiling:incremental:%d shapes", len(ids))
 	c.Class(class)
 	idx := s2.NewShapeIndex()
-	q := s2.NewContainsPointQuery(idx, s2.VertexModelSemiOpen)
 	var fresh []*s2.Loop
 	rep := func(p s2.Point, step int, extra string) map[string]interface{} {
 		var toks []string
@@ -123,6 +122,8 @@ func runIncrementalTiling(c *vkit.Collector, rng *vkit.Rng, k int) {
 	for step, id := range ids {
 		idx.Add(s2.LoopFromCell(s2.CellFromCellID(id)))
 		fresh = append(fresh, s2.LoopFromCell(s2.CellFromCellID(id)))
+		// a NEW query object after every mutation of the index (a query carried across a mutation is outside the contract)
+		q := s2.NewContainsPointQuery(idx, s2.VertexModelSemiOpen)
 		for _, p := range probes {
 			want := 0
 			for _, l := range fresh {
